@@ -28,7 +28,12 @@ func VerifC13_Queue_Bounds() {
 	q := NewQueueBlockingLimiterFromConfig(d, QueueLimiterConfig{MaxBacklogSize: 10, MaxBacklogTimeout: time.Duration(to), BacklogEvictDoneCtx: evict})
 	cancelAt := verif.Int64("cancelAt")
 	verif.Assume(cancelAt >= 0)
-	ctx := verif.CancelCtxAt(cancelAt)
+	// the context may carry a deadline (reported by ctx.Deadline()); it is done no later than that
+	hasDl := verif.Bool("ctxHasDeadline")
+	dl := verif.Int64("ctxDeadline")
+	verif.Assume(dl >= 0 && dl < 1<<61)
+	verif.Assume(verif.Implies(hasDl, cancelAt <= dl))
+	ctx := verif.DeadlineCtxAt(cancelAt, dl, hasDl)
 	t0 := verif.Int64("arrival")
 	verif.Assume(t0 >= 0 && t0 < 1<<60)
 	verif.SetNow(t0)
